@@ -72,7 +72,8 @@ Expand(defs, stmts, i, env, ctx, path, fuel) ==
                                      r |-> Subst(s.r, env, ctx)]>> \o rest
               [] s.k = "label" ->
                     <<[k |-> "label",
-                       n |-> IF s.n \in DOMAIN env /\ env[s.n].b = "lbl" THEN env[s.n].n ELSE JoinDots(ctx \o <<s.n>>)]>> \o rest
+                       n |-> IF s.n \in DOMAIN env /\ env[s.n].b = "lbl" THEN env[s.n].n ELSE JoinDots(ctx \o <<s.n>>),
+                       loc |-> s.n \in DOMAIN env /\ env[s.n].b = "lbl"]>> \o rest        \* loc: a local label of an expansion
               [] s.k = "call" ->
                     LET args == [k \in 1..Len(s.args) |-> Subst(s.args[k], env, ctx)]
                         d == Lookup(defs, FullName(ctx, s.dots, s.m), Len(args))
@@ -99,5 +100,8 @@ Inline(prog) == Expand(prog.defs, prog.main, 1, <<>>, <<>>, <<>>, 12)
 WellFormed(inl) == \A k \in 1..Len(inl) : inl[k].k # "error"
 \* every expansion's local labels are renamed apart
 LabelDefs(inl) == {k \in 1..Len(inl) : inl[k].k = "label"}
-LocalNamesUnique(inl) == \A k1, k2 \in LabelDefs(inl) : k1 # k2 => inl[k1].n # inl[k2].n
+\* (a label a macro body does not declare local is ONE global label: expanding that macro twice is the program's own
+\* duplicate-label error, in the macro program and in its inlining alike - GlobalNamesUnique tells)
+LocalNamesUnique(inl) == \A k1, k2 \in LabelDefs(inl) : (k1 # k2 /\ inl[k1].loc) => inl[k1].n # inl[k2].n
+GlobalNamesUnique(inl) == \A k1, k2 \in LabelDefs(inl) : (k1 # k2 /\ ~inl[k1].loc /\ ~inl[k2].loc) => inl[k1].n # inl[k2].n
 =============================================================================
